@@ -49,6 +49,7 @@ import (
 	"encoding/json"
 	"fmt"
 	"os"
+	"runtime"
 	"sort"
 	"strconv"
 	"strings"
@@ -65,11 +66,8 @@ import (
 // ---------------------------------------------------------------------------
 // Record representation used by the generator, the oracle and replay files.
 
-type rEvent struct {
-	Introduced   string `json:"introduced,omitempty"`
-	Fixed        string `json:"fixed,omitempty"`
-	LastAffected string `json:"last_affected,omitempty"`
-}
+// rEvent is osvschema.Event (JSON: introduced / fixed / last_affected, omitempty).
+type rEvent = osvschema.Event
 
 type rRange struct {
 	Type   string   `json:"type"`
@@ -100,9 +98,7 @@ func (c *rCase) toOSV() *osvschema.Vulnerability {
 		}
 		for _, rg := range a.Ranges {
 			or := osvschema.Range{Type: osvschema.RangeType(rg.Type)}
-			for _, e := range rg.Events {
-				or.Events = append(or.Events, osvschema.Event{Introduced: e.Introduced, Fixed: e.Fixed, LastAffected: e.LastAffected})
-			}
+			or.Events = append([]rEvent{}, rg.Events...)
 			oa.Ranges = append(oa.Ranges, or)
 		}
 		v.Affected = append(v.Affected, oa)
@@ -162,7 +158,9 @@ func refCmp(a, b string) int {
 // ---------------------------------------------------------------------------
 // Oracle 1: the OSV specification's evaluation, linear scan.
 
-func evVersion(e rEvent) string {
+type oEvent = osvschema.Event
+
+func evVersion(e oEvent) string {
 	switch {
 	case e.Introduced != "":
 		return e.Introduced
@@ -172,39 +170,54 @@ func evVersion(e rEvent) string {
 	return e.LastAffected
 }
 
-// specSorted orders events by version, "0" before every version. Among events
+func cmpEvents(a, b oEvent) int {
+	x, y := evVersion(a), evVersion(b)
+	var c int
+	switch {
+	case x == "0" && y == "0":
+		c = 0
+	case x == "0":
+		c = -1
+	case y == "0":
+		c = 1
+	default:
+		c = refCmp(x, y)
+	}
+	if c != 0 {
+		return c
+	}
+	if a.Introduced != "" && b.Introduced == "" {
+		return -1
+	}
+	if a.Introduced == "" && b.Introduced != "" {
+		return 1
+	}
+	return 0
+}
+
+// specSortedInto orders events by version, "0" before every version. Among events
 // on the same version an `introduced` comes first (the only tie a well-formed
 // list can contain is introduced X / last_affected X, whose alternating order
-// is introduced first).
-func specSorted(events []rEvent) []rEvent {
-	out := append([]rEvent{}, events...)
-	sort.SliceStable(out, func(i, j int) bool {
-		a, b := evVersion(out[i]), evVersion(out[j])
-		var c int
-		switch {
-		case a == "0" && b == "0":
-			c = 0
-		case a == "0":
-			c = -1
-		case b == "0":
-			c = 1
-		default:
-			c = refCmp(a, b)
+// is introduced first). Stable insertion sort into buf.
+func specSortedInto(buf []oEvent, events []oEvent) []oEvent {
+	out := append(buf[:0], events...)
+	for i := 1; i < len(out); i++ {
+		for j := i; j > 0 && cmpEvents(out[j], out[j-1]) < 0; j-- {
+			out[j], out[j-1] = out[j-1], out[j]
 		}
-		if c != 0 {
-			return c < 0
-		}
-		return out[i].Introduced != "" && out[j].Introduced == ""
-	})
+	}
 	return out
 }
+
+func specSorted(events []oEvent) []oEvent { return specSortedInto(nil, events) }
 
 func geq(v, e string) bool { return e == "0" || refCmp(v, e) >= 0 }
 func gt(v, e string) bool  { return e == "0" || refCmp(v, e) > 0 }
 
-func specScan(events []rEvent, v string) bool {
+func specScan(events []oEvent, v string) bool {
+	var buf [8]oEvent
 	vulnerable := false
-	for _, e := range specSorted(events) {
+	for _, e := range specSortedInto(buf[:], events) {
 		if e.Introduced != "" && geq(v, e.Introduced) {
 			vulnerable = true
 		} else if e.Fixed != "" && geq(v, e.Fixed) {
@@ -226,19 +239,21 @@ func typeMatches(eco, typ string) bool {
 	return false // GIT ranges are never evaluated against package versions
 }
 
-// specAffected is IsVulnerable of the specification for package (eco,name) at version v.
-func specAffected(c *rCase) bool {
-	for _, a := range c.Affected {
-		if a.Ecosystem != c.Ecosystem || a.Name != c.Name {
+// specAffectedOSV is IsVulnerable of the specification for package (eco,name) at version v.
+func specAffectedOSV(eco, name, v string, affected []osvschema.Affected) bool {
+	for i := range affected {
+		a := &affected[i]
+		if a.Package.Ecosystem != eco || a.Package.Name != name {
 			continue
 		}
 		for _, lv := range a.Versions {
-			if lv == c.Version {
+			if lv == v {
 				return true
 			}
 		}
-		for _, rg := range a.Ranges {
-			if typeMatches(a.Ecosystem, rg.Type) && specScan(rg.Events, c.Version) {
+		for j := range a.Ranges {
+			rg := &a.Ranges[j]
+			if typeMatches(a.Package.Ecosystem, string(rg.Type)) && specScan(rg.Events, v) {
 				return true
 			}
 		}
@@ -246,10 +261,14 @@ func specAffected(c *rCase) bool {
 	return false
 }
 
+func specAffected(c *rCase) bool {
+	return specAffectedOSV(c.Ecosystem, c.Name, c.Version, c.toOSV().Affected)
+}
+
 // Oracle 2 (cross-check of oracle 1 only): the statement's interval wording. v is affected by
 // a range iff some introduced event i has i <= v ("0" precedes everything) and the closer that
 // follows i in the ordered list, if any, does not close before/at v.
-func declAffected(events []rEvent, v string) bool {
+func declAffected(events []oEvent, v string) bool {
 	s := specSorted(events)
 	for k := 0; k < len(s); k += 2 {
 		i := s[k]
@@ -518,6 +537,27 @@ func (c *canon) listed(perm []int) []rEvent {
 
 type stats struct {
 	evals, affected, notAffected, skipped int64
+	vuln                                  osvschema.Vulnerability // scratch record, reused for every case of a work item
+	viols                                 []*vrec                 // mismatches of this work item, first example per cause key
+}
+
+// vrec collects the violations of one work item under one cause key. They are handed to
+// ev.Violation after the parallel phase in work-item order, so that the example written to the
+// replay file does not depend on goroutine scheduling or VERIF_SEED.
+type vrec struct {
+	key, what string
+	c         *rCase
+	n         int
+}
+
+func (st *stats) addViol(key, what string, c *rCase) {
+	for _, v := range st.viols {
+		if v.key == key {
+			v.n++
+			return
+		}
+	}
+	st.viols = append(st.viols, &vrec{key, what, c, 1})
 }
 
 var (
@@ -525,10 +565,50 @@ var (
 	gPermLists                        atomic.Int64
 )
 
-func callImpl(c *rCase, pkg *extractor.Package) (got bool, panicked any, stack string) {
-	v := c.toOSV()
-	panicked, stack = ev.Recover(func() { got = guidedremediation.VerifIsAffected(v, pkg) })
+func safeCall(v *osvschema.Vulnerability, pkg *extractor.Package) (got bool, panicked any, stack string) {
+	defer func() {
+		if x := recover(); x != nil {
+			panicked = x
+			buf := make([]byte, 8192)
+			stack = string(buf[:runtime.Stack(buf, false)])
+		}
+	}()
+	got = guidedremediation.VerifIsAffected(v, pkg)
 	return
+}
+
+func callImpl(c *rCase, pkg *extractor.Package) (got bool, panicked any, stack string) {
+	return safeCall(c.toOSV(), pkg)
+}
+
+// fcase is a case in the form handed to the implementation; converted to an rCase only
+// when it has to be written out (violation, sample).
+type fcase struct {
+	phase string
+	aff   []osvschema.Affected
+}
+
+func (c fcase) toRCase(e *ecoT, pi int) *rCase {
+	out := &rCase{Phase: c.phase, Ecosystem: e.osv, Name: e.name, Version: e.probes[pi], Affected: []rAffected{}}
+	for _, a := range c.aff {
+		ra := rAffected{Ecosystem: a.Package.Ecosystem, Name: a.Package.Name}
+		if a.Versions != nil {
+			ra.Versions = append([]string{}, a.Versions...)
+		}
+		for _, rg := range a.Ranges {
+			ra.Ranges = append(ra.Ranges, rRange{Type: string(rg.Type), Events: append([]rEvent{}, rg.Events...)})
+		}
+		out.Affected = append(out.Affected, ra)
+	}
+	return out
+}
+
+func entry(eco, name string, versions []string, rs ...osvschema.Range) osvschema.Affected {
+	return osvschema.Affected{Package: osvschema.Package{Ecosystem: eco, Name: name}, Versions: versions, Ranges: rs}
+}
+
+func rg(typ string, evs []rEvent) osvschema.Range {
+	return osvschema.Range{Type: osvschema.RangeType(typ), Events: evs}
 }
 
 func pkgFor(eco *ecoT, version string) *extractor.Package {
@@ -639,9 +719,11 @@ type runner struct {
 }
 
 // check executes one case; returns the oracle verdict.
-func (x *runner) check(c *rCase, eco *ecoT, pi int, st *stats) bool {
-	want := specAffected(c)
-	got, pv, stack := callImpl(c, eco.pkgs[pi])
+func (x *runner) check(fc fcase, eco *ecoT, pi int, st *stats) bool {
+	want := specAffectedOSV(eco.osv, eco.name, eco.probes[pi], fc.aff)
+	st.vuln.ID = "VERIF-C18"
+	st.vuln.Affected = fc.aff
+	got, pv, stack := safeCall(&st.vuln, eco.pkgs[pi])
 	st.evals++
 	if want {
 		st.affected++
@@ -649,12 +731,14 @@ func (x *runner) check(c *rCase, eco *ecoT, pi int, st *stats) bool {
 		st.notAffected++
 	}
 	if pv != nil {
-		x.r.Violation("panic:"+ev.PanicSite(stack), fmt.Sprintf("IsAffected panicked (%v) on %s", pv, brief(c)), c)
+		c := fc.toRCase(eco, pi)
+		st.addViol("panic:"+ev.PanicSite(stack), fmt.Sprintf("IsAffected panicked (%v) on %s", pv, brief(c)), c)
 		return want
 	}
 	if got != want {
+		c := fc.toRCase(eco, pi)
 		key := causeKey(c, eco, got, want)
-		x.r.Violation(key, fmt.Sprintf("IsAffected=%v, OSV evaluation=%v for %s", got, want, brief(c)), c)
+		st.addViol(key, fmt.Sprintf("IsAffected=%v, OSV evaluation=%v for %s", got, want, brief(c)), c)
 	}
 	return want
 }
@@ -806,16 +890,27 @@ func main() {
 
 	var distinctLists, distinctA atomic.Int64
 
+	// Event slices are shared between many cases; the implementation must treat the record as
+	// read-only. guard re-derives the listing and reports if it was modified in place.
+	guard := func(e *ecoT, c *canon, pm []int, l1 []rEvent) {
+		want := c.listed(pm)
+		for i := range want {
+			if want[i] != l1[i] {
+				r.Violation("record-modified-in-place", fmt.Sprintf("IsAffected reordered/modified the events of the record it was given (%s list %s)", e.osv, c.str), c.str)
+				return
+			}
+		}
+	}
+
+	itemViols := make([][]*vrec, len(items))
 	done := r.ParallelFor(len(items), func(k int) {
 		it := items[order[k]]
 		e := it.eco
 		var st stats
 		var distinct int64
-		mk := func(phase string, pi int, aff ...rAffected) *rCase {
-			return &rCase{Phase: phase, Ecosystem: e.osv, Name: e.name, Version: e.probes[pi], Affected: aff}
-		}
-		own := func(versions []string, rs ...rRange) rAffected {
-			return rAffected{Ecosystem: e.osv, Name: e.name, Versions: versions, Ranges: rs}
+		mk := func(phase string, _ int, aff ...osvschema.Affected) fcase { return fcase{phase, aff} }
+		own := func(versions []string, rs ...osvschema.Range) osvschema.Affected {
+			return entry(e.osv, e.name, versions, rs...)
 		}
 		switch it.phase {
 		case "A":
@@ -829,10 +924,10 @@ func main() {
 					distinct++
 					distinctA.Add(1)
 					for pn, pm := range ps {
-						c := mk("A", pi, own(nil, rRange{typ, it.c.listed(pm)}))
+						c := mk("A", pi, own(nil, rg(typ, it.c.listed(pm))))
 						w := x.check(c, e, pi, &st)
 						if pn == len(ps)-1 && len(it.c.evs) == 4 && typ == "ECOSYSTEM" && (it.c.id+pi)%97 == 0 {
-							sample(c, w)
+							sample(c.toRCase(e, pi), w)
 						}
 					}
 				}
@@ -840,14 +935,15 @@ func main() {
 		case "B":
 			for _, pm := range perms(len(it.c.evs)) {
 				l1 := it.c.listed(pm)
+				defer guard(e, it.c, pm, l1)
 				for _, s2 := range seconds {
 					for _, t1 := range e.types {
 						for _, t2 := range e.types {
 							for pi := range e.probes {
-								c := mk("B", pi, own(nil, rRange{t1, l1}, rRange{t2, s2.evs}))
+								c := mk("B", pi, own(nil, rg(t1, l1), rg(t2, s2.evs)))
 								x.check(c, e, pi, &st)
 								if len(it.c.evs) > lenSecond { // the swapped order is not itself in the product
-									c = mk("B", pi, own(nil, rRange{t2, s2.evs}, rRange{t1, l1}))
+									c = mk("B", pi, own(nil, rg(t2, s2.evs), rg(t1, l1)))
 									x.check(c, e, pi, &st)
 								}
 							}
@@ -867,22 +963,23 @@ func main() {
 			if e.osv == "npm" {
 				matchTypes = append(matchTypes, "SEMVER")
 			}
-			all := rRange{"ECOSYSTEM", []rEvent{{Introduced: "0"}}}
+			all := rg("ECOSYSTEM", []rEvent{{Introduced: "0"}})
 			for _, pm := range perms(len(it.c.evs)) {
 				l1 := it.c.listed(pm)
+				defer guard(e, it.c, pm, l1)
 				for _, typ := range matchTypes {
 					for pi, pv := range e.probes {
 						for _, d := range decoys {
 							for content := 0; content < 3; content++ {
-								da := rAffected{Ecosystem: d.eco, Name: d.name}
+								da := entry(d.eco, d.name, nil)
 								if content != 1 {
-									da.Ranges = []rRange{all}
+									da.Ranges = []osvschema.Range{all}
 								}
 								if content != 0 {
 									da.Versions = []string{pv}
 								}
-								x.check(mk("C1", pi, own(nil, rRange{typ, l1}), da), e, pi, &st)
-								x.check(mk("C1", pi, da, own(nil, rRange{typ, l1})), e, pi, &st)
+								x.check(mk("C1", pi, own(nil, rg(typ, l1)), da), e, pi, &st)
+								x.check(mk("C1", pi, da, own(nil, rg(typ, l1))), e, pi, &st)
 							}
 						}
 					}
@@ -892,10 +989,11 @@ func main() {
 		case "C2":
 			for _, pm := range perms(len(it.c.evs)) {
 				l1 := it.c.listed(pm)
+				defer guard(e, it.c, pm, l1)
 				for _, s2 := range seconds {
 					for _, tp := range [][2]string{{"ECOSYSTEM", "ECOSYSTEM"}, {"ECOSYSTEM", "GIT"}, {"GIT", "ECOSYSTEM"}} {
 						for pi := range e.probes {
-							x.check(mk("C2", pi, own(nil, rRange{tp[0], l1}), own(nil, rRange{tp[1], s2.evs})), e, pi, &st)
+							x.check(mk("C2", pi, own(nil, rg(tp[0], l1)), own(nil, rg(tp[1], s2.evs))), e, pi, &st)
 						}
 					}
 				}
@@ -906,8 +1004,8 @@ func main() {
 							st.skipped++ // don't-care: version-equal, not string-equal
 							continue
 						}
-						x.check(mk("C2", pi, own(nil, rRange{"ECOSYSTEM", l1}), own([]string{lv})), e, pi, &st)
-						x.check(mk("C2", pi, own([]string{lv}), own(nil, rRange{"GIT", l1})), e, pi, &st)
+						x.check(mk("C2", pi, own(nil, rg("ECOSYSTEM", l1)), own([]string{lv})), e, pi, &st)
+						x.check(mk("C2", pi, own([]string{lv}), own(nil, rg("GIT", l1))), e, pi, &st)
 					}
 				}
 			}
@@ -916,6 +1014,7 @@ func main() {
 			subs := subsets(len(e.probes))
 			for _, pm := range perms(len(it.c.evs)) {
 				l1 := it.c.listed(pm)
+				defer guard(e, it.c, pm, l1)
 				for _, typ := range []string{"ECOSYSTEM", "GIT"} {
 					for _, sub := range subs {
 						vs := []string{}
@@ -929,7 +1028,7 @@ func main() {
 									dc = true
 								}
 							}
-							c := mk("D", pi, own(vs, rRange{typ, l1}))
+							c := mk("D", pi, own(vs, rg(typ, l1)))
 							if dc && !(typ == "ECOSYSTEM" && specScan(l1, pv)) {
 								st.skipped++ // don't-care: listed by an equivalent spelling only
 								continue
@@ -959,7 +1058,7 @@ func main() {
 						st.skipped++
 						continue
 					}
-					var c *rCase
+					var c fcase
 					if len(vs) == 0 {
 						c = mk("D0", pi, own(nil))
 					} else {
@@ -968,26 +1067,34 @@ func main() {
 					w := x.check(c, e, pi, &st)
 					distinct++
 					if len(vs) == 2 && w && pi == 3 {
-						sample(c, w)
+						sample(c.toRCase(e, pi), w)
 					}
 				}
 			}
-			all := rRange{"ECOSYSTEM", []rEvent{{Introduced: "0"}}}
+			all := rg("ECOSYSTEM", []rEvent{{Introduced: "0"}})
 			for pi, pv := range e.probes {
 				x.check(mk("D0", pi), e, pi, &st) // no affected entries at all
 				distinct++
 				for _, o := range otherEcos(e) {
 					for _, nm := range []string{e.name, o.name} {
-						x.check(mk("D0", pi, rAffected{Ecosystem: o.osv, Name: nm, Versions: []string{pv}, Ranges: []rRange{all}}), e, pi, &st)
+						x.check(mk("D0", pi, entry(o.osv, nm, []string{pv}, all)), e, pi, &st)
 						distinct++
 					}
 				}
-				x.check(mk("D0", pi, rAffected{Ecosystem: e.osv, Name: e.other, Versions: []string{pv}, Ranges: []rRange{all}}), e, pi, &st)
+				x.check(mk("D0", pi, entry(e.osv, e.other, []string{pv}, all)), e, pi, &st)
 				distinct++
 			}
 		}
 		st.flush(r, distinct)
+		itemViols[order[k]] = st.viols
 	})
+	for _, vs := range itemViols { // canonical work-item order
+		for _, v := range vs {
+			for i := 0; i < v.n; i++ {
+				r.Violation(v.key, v.what, v.c)
+			}
+		}
+	}
 
 	r.Set("ladder", ladder)
 	r.Set("probes_per_ecosystem", map[string]int{"npm": len(ecos[0].probes), "Maven": len(ecos[1].probes), "PyPI": len(ecos[2].probes)})
